@@ -188,15 +188,19 @@ func (box *boxTracker) compactRules(rules []css_ast.Rule, keyRange logger.Range,
 
 	// Remove all of the existing declarations
 	var minLoc logger.Loc
+	var lastRuleIndex uint32
 	for i, side := range box.sides {
 		if loc := rules[side.ruleIndex].Loc; i == 0 || loc.Start < minLoc.Start {
 			minLoc = loc
+		}
+		if side.ruleIndex > lastRuleIndex {
+			lastRuleIndex = side.ruleIndex
 		}
 		rules[side.ruleIndex] = css_ast.Rule{}
 	}
 
 	// Insert the combined declaration where the last rule was
-	rules[box.sides[3].ruleIndex] = css_ast.Rule{Loc: minLoc, Data: &css_ast.RDeclaration{
+	rules[lastRuleIndex] = css_ast.Rule{Loc: minLoc, Data: &css_ast.RDeclaration{
 		Key:       box.key,
 		KeyText:   box.keyText,
 		Value:     tokens,
